@@ -7,8 +7,8 @@ VERIF = os.path.dirname(os.path.dirname(os.path.abspath(__file__)))
 import re
 IMPLEMENTED = sorted(set(re.findall(r'"(C\d\d)"', open(os.path.join(VERIF, "harness/vlib/src/props/mod.rs")).read())))
 
-T_MODEL = "generated inputs under the native, the scalar and the SSE4.2 scanner backend (bounded-exhaustive class-alphabet enumeration, 256-value byte sweeps, lane-phase families, proptest-driven grammar generation with mutations and shrinking) compared with an independent executable reference model, which is itself checked against the expectations extracted from the repository's own tests"
-T_META = "generated inputs (proptest-driven grammar generation with mutations and shrinking, bounded-exhaustive enumeration) judged by a metamorphic / differential relation between runs of the real parser"
+T_MODEL = "generated inputs under the native, the scalar and the SSE4.2 scanner backend and in a SIMD-disabled build (bounded-exhaustive class-alphabet enumeration, 256-value byte sweeps, lane-phase families, proptest-driven grammar generation with mutations and shrinking) compared with an independent executable reference model, which is itself checked against the expectations extracted from the repository's own tests"
+T_META = "generated inputs (proptest-driven grammar generation with mutations and shrinking, bounded-exhaustive enumeration, boundary-count / byte-pair / after-blank sweeps; native, forced-scalar, forced-SSE4.2 and cold-start passes, SIMD-disabled build) judged by a metamorphic / differential relation between runs of the real parser"
 
 CHECKS = {
  "C01": dict(tech="generated inputs placed against guard pages, run through every entry point / config / capacity / backend in release and debug-assertion builds; crash containment by supervisor+worker; valgrind memcheck on exact-size heap allocations of the production build; libFuzzer+ASan in the thorough tier",
